@@ -35,6 +35,7 @@ var c19Special = []string{
 	"--1=1e308", "--1=1e309", "--1=NaN", "--1", "1e400", "--bb", "k=v", "=", "==", "--bb==", "--é", "--é=", "-é", "--help", "help", "--a=true", "--a=", "--b", "--b=", "a", "1",
 	"--bb=a", "--bb=b=", "--bb=", "--b=b", "--b=b1", "--b=b1x", "--é=x", "--a=", "-b=b", "--bb=ab",
 	"\x00", "--\x00", "--b=\x00", "-\x00", "%s%d%v", "--%s", "--b=%!d(string=x)", "--ab=1..2..3", "-1..5", "--ab=0x1..0x5",
+	"--ab=1..10..0", "1..2..000", "--ab=1..9..2", "--ab=5..1..-1", "--ab=1..3..", "0..1..+0", "a=b=c", "level=d", "=a", "a==", "a-very-long-word-before-the-equal-sign=d", "x=" + strings.Repeat("y", 100), strings.Repeat("k", 100) + "=",
 }
 
 func defC19(mode, unknown int, ro bool) *ph.Def {
@@ -53,7 +54,7 @@ func defC19(mode, unknown int, ro bool) *ph.Def {
 			{Name: "t", Kind: ph.Bool, Env: "VERIF_C19_T"},
 		},
 		Cmds: []*ph.CmdDef{
-			{Name: "a", Opts: []ph.OptDef{{Name: "x", Kind: ph.IntOpt}}, Cmds: []*ph.CmdDef{{Name: "1"}}, ArgCompl: []string{"arg1", "a.b"}},
+			{Name: "a", Opts: []ph.OptDef{{Name: "x", Kind: ph.IntOpt}}, Cmds: []*ph.CmdDef{{Name: "1"}}, ArgCompl: []string{"arg1", "a.b", "a=b"}, ArgFn: true}, // dynamic completion functions return fixed, short lists
 			{Name: "1", NoFn: true, Unset: true},
 		},
 	}}
@@ -223,7 +224,7 @@ func init() {
 	register(&Check{
 		ID:        "C19",
 		QuickSecs: 150, ThoroSecs: 1500,
-		Rule: "input-space exploration at byte level: tokens = all byte strings of length <= 3 over 13 bytes {- = a b . 1 space newline : / 0xC3 0xA9 0xFF} (2380) plus 60 special tokens (10^4-byte and deeply bundled tokens, int ranges with spans <= 10^4 including ranges ending at the int64 limits, numeric limits, format verbs, NUL); " +
+		Rule: "input-space exploration at byte level: tokens = all byte strings of length <= 3 over 13 bytes {- = a b . 1 space newline : / 0xC3 0xA9 0xFF} (2380) plus 73 special tokens (10^4-byte and deeply bundled tokens, int ranges with spans <= 10^4 including ranges ending at the int64 limits, numeric limits, format verbs, NUL); " +
 			"every single token x 18 configurations, every pair over a subset of Np tokens, every triple over Nt tokens, the same strings as COMP_LINE (bash and zsh, both argument conventions) and as environment values of bound options; a family of definitions in which each of 15 texts (long, multibyte, combining, wide, format verbs, blanks, newline) takes each role (command name, option name, alias, argument name, description, synopsis argument, program name) x 3 modes, each with 17 command lines, 9 completion lines and Help() of every level; Parse, Dispatch and Help run under recover with a budget of 10^6 loop iterations per call (instrumented loops); " +
 			"oracle: no panic, budget never exhausted, a failed Parse returns nil remaining and a non-nil error, completion leaves through the exit path; distinct_nontrivial = distinct inputs executed",
 		Assume: []string{"tokens outside the byte alphabet and longer sequences are not covered", "a hang is detected as exhaustion of the loop-iteration budget, not by wall-clock"},
